@@ -512,14 +512,20 @@ where
 {
     use crate::real::*;
     const N_ELEMS: u64 = 8;
-    let total = N_ELEMS * 9 * 256 * 2 * 2;
-    r.par_enum("all 256 values of the byte after a run of 1..=9 blanks: both request-line delimiters, after the version, after the status code (start of the reason), after the colon (SP and HTAB runs), inside a value, before the first header name × option off/on × {short, long} tail", total, |ctx, l, idx| {
+    const REPS: [usize; 4] = [1, 8, 9, 17];
+    let total = N_ELEMS * 9 * 256 * 2 * 2 * REPS.len() as u64;
+    r.par_enum("all 256 values of the byte (alone or repeated 8, 9, 17 times) after a run of 1..=9 blanks: both request-line delimiters, after the version, after the status code (start of the reason), after the colon (SP and HTAB runs), inside a value, before the first header name × option off/on × {short, long} tail", total, |ctx, l, idx| {
         let mut x = idx;
         let long_tail = x % 2 == 1;
         x /= 2;
         let opt_on = x % 2 == 1;
         x /= 2;
-        let v = (x % 256) as u8;
+        // the byte after the run, alone or repeated (a word-at-a-time skipper that compares
+        // the bytes of a word with each other is fooled by a word of identical bytes)
+        let rep = REPS[(x % REPS.len() as u64) as usize];
+        x /= REPS.len() as u64;
+        let vb = (x % 256) as u8;
+        let v: &[u8] = &vec![vb; rep];
         x /= 256;
         let k = (x % 9) as usize + 1;
         let elem = x / 9;
@@ -527,14 +533,14 @@ where
         let tb = vec![b'\t'; k];
         let tail: &[u8] = if long_tail { b"done and some more text that is long enough\r\nA: b\r\n\r\n" } else { b"d\r\n\r\n" };
         let (entry, opt, buf): (Entry, u8, Vec<u8>) = match elem {
-            0 => (Entry::RespCfg, C_MULTISPACE_RESP, [&b"HTTP/1.1 200"[..], &sp, &[v], tail].concat()),
-            1 => (Entry::RespCfg, C_MULTISPACE_RESP, [&b"HTTP/1.1"[..], &sp, &[v], b"00 OK\r\n\r\n"].concat()),
-            2 => (Entry::ReqCfg, C_MULTISPACE_REQ, [&b"GET"[..], &sp, &[v], b"path HTTP/1.1\r\n\r\n"].concat()),
-            3 => (Entry::ReqCfg, C_MULTISPACE_REQ, [&b"GET /path"[..], &sp, &[v], b"TTP/1.1\r\n\r\n"].concat()),
-            4 => (Entry::RespCfg, C_SPACES_AFTER_NAME, [&b"HTTP/1.1 200 OK\r\nName: "[..], &sp, &[v], tail].concat()),
-            5 => (Entry::RespCfg, C_SPACES_AFTER_NAME, [&b"HTTP/1.1 200 OK\r\nName:"[..], &tb, &[v], tail].concat()),
-            6 => (Entry::RespCfg, C_MULTILINE, [&b"HTTP/1.1 200 OK\r\nName: v"[..], &sp, &[v], tail].concat()),
-            _ => (Entry::RespCfg, C_SPACE_BEFORE_FIRST, [&b"HTTP/1.1 200 OK\r\n"[..], &sp, &[v], b"ame: v\r\n\r\n"].concat()),
+            0 => (Entry::RespCfg, C_MULTISPACE_RESP, [&b"HTTP/1.1 200"[..], &sp, v, tail].concat()),
+            1 => (Entry::RespCfg, C_MULTISPACE_RESP, [&b"HTTP/1.1"[..], &sp, v, b"00 OK\r\n\r\n"].concat()),
+            2 => (Entry::ReqCfg, C_MULTISPACE_REQ, [&b"GET"[..], &sp, v, b"path HTTP/1.1\r\n\r\n"].concat()),
+            3 => (Entry::ReqCfg, C_MULTISPACE_REQ, [&b"GET /path"[..], &sp, v, b"TTP/1.1\r\n\r\n"].concat()),
+            4 => (Entry::RespCfg, C_SPACES_AFTER_NAME, [&b"HTTP/1.1 200 OK\r\nName: "[..], &sp, v, tail].concat()),
+            5 => (Entry::RespCfg, C_SPACES_AFTER_NAME, [&b"HTTP/1.1 200 OK\r\nName:"[..], &tb, v, tail].concat()),
+            6 => (Entry::RespCfg, C_MULTILINE, [&b"HTTP/1.1 200 OK\r\nName: v"[..], &sp, v, tail].concat()),
+            _ => (Entry::RespCfg, C_SPACE_BEFORE_FIRST, [&b"HTTP/1.1 200 OK\r\n"[..], &sp, v, b"ame: v\r\n\r\n"].concat()),
         };
         let cfg = if opt_on { opt } else { 0 };
         if !accept(entry, cfg) {
